@@ -209,27 +209,58 @@ def check(ctx):
     g = an.cfg(sk)
     derived = [n for n in g.nodes if n.kind == "assign" and isinstance(n.ast, ast.Assign) and any(isinstance(t, ast.Attribute) and t.attr == "env" for t in n.ast.targets)]
     ctx.need(bool(derived), "Field.__setkey__ no longer derives the variable name")
+    def name_shape(fn):
+        """(key upper-cased, prefix case untouched, '_' joiner present)"""
+        key_upper = False
+        prefix_recased = None
+        for x in ast.walk(fn.node):
+            if isinstance(x, ast.Call) and isinstance(x.func, ast.Attribute) and x.func.attr in ("upper", "lower", "casefold", "title", "capitalize", "swapcase"):
+                recv = x.func.value
+                if x.func.attr == "upper" and isinstance(recv, ast.Attribute) and recv.attr == "_key":
+                    key_upper = True
+                    continue
+                # anything else that is re-cased: does it contain the inherited prefix?
+                names = set()
+                for y in ast.walk(recv):
+                    if isinstance(y, ast.Attribute) and y.attr == "_env_prefix":
+                        names.add("_env_prefix")
+                    if isinstance(y, ast.Name):
+                        for k, pl in value_sources(fn, y, None):
+                            if k == "expr" and isinstance(pl, ast.AST) and any(isinstance(z, ast.Attribute) and z.attr == "_env_prefix" for z in ast.walk(pl)):
+                                names.add(y.id)
+                        # comprehension variables iterating over a tuple/list that holds the prefix
+                        par = getattr(y, "_parent", None)
+                        while par is not None and not isinstance(par, (ast.FunctionDef,)):
+                            if isinstance(par, (ast.GeneratorExp, ast.ListComp)):
+                                if any(isinstance(z, ast.Attribute) and z.attr == "_env_prefix" for g2 in par.generators for z in ast.walk(g2.iter)) or \
+                                        any(isinstance(z, ast.Name) and any(k2 == "expr" and isinstance(p2, ast.AST) and any(
+                                            isinstance(w, ast.Attribute) and w.attr == "_env_prefix" for w in ast.walk(p2))
+                                            for k2, p2 in value_sources(fn, z, None)) for g2 in par.generators for z in ast.walk(g2.iter)):
+                                    names.add("<comprehension over prefix>")
+                            par = getattr(par, "_parent", None)
+                if names:
+                    prefix_recased = ast.unparse(x)[:60]
+        joiner = any(isinstance(x, ast.Constant) and x.value == "_" for x in ast.walk(fn.node))
+        return key_upper, prefix_recased, joiner
+
+    ku, pr, jn = name_shape(sk)
     for n in derived:
-        v = n.ast.value
-        up = any(isinstance(x, ast.Call) and isinstance(x.func, ast.Attribute) and x.func.attr == "upper" and isinstance(x.func.value, ast.Attribute)
-                 and x.func.value.attr == "_key" for x in ast.walk(v))
-        pre_ok = isinstance(v, ast.BinOp) and isinstance(v.op, ast.Add)
-        ctx.ob("name.shape", sk, n.ast, up and pre_ok, "variable = prefix + KEY.upper()" if up and pre_ok else
-               "the derived variable name is not prefix + upper-cased key", node=n)
+        ctx.ob("name.shape", sk, n.ast, ku and pr is None, "variable = prefix (as given) + KEY.upper()" if ku and pr is None else
+               ("the inherited prefix is re-cased (%s): a prefix given in lower case no longer names the variable" % pr if pr else
+                "the key part of the derived variable name is not upper-cased"), node=n)
         # opt-out dominates
         dg = dominating_guards(an, sk, n)
         opt = any((not tr) and isinstance(t.ast, ast.Compare) and isinstance(t.ast.ops[0], ast.Is) and isinstance(t.ast.comparators[0], ast.Constant)
                   and t.ast.comparators[0].value is False and "env" in ast.unparse(t.ast.left) for t, tr in dg)
         ctx.ob("name.opt-out", sk, n.ast, opt, "env=False returns before any name is derived" if opt else
                "a field that opted out (env=False) can still get a variable name", node=n)
-    # the joiner
-    joiner = [x for x in ast.walk(sk.node) if isinstance(x, ast.BinOp) and isinstance(x.op, ast.Add) and isinstance(x.right, ast.Constant) and x.right.value == "_"]
-    ctx.ob("name.joiner", sk, "prefix + '_'", bool(joiner), "prefix and key are joined by '_'" if joiner else "the prefix joiner is no longer '_'")
+    ctx.ob("name.joiner", sk, "prefix + '_'", jn, "prefix and key are joined by '_'" if jn else "the prefix joiner is no longer '_'")
     ssk = model.method("Schema", "__setkey__")
-    joiner = [x for x in ast.walk(ssk.node) if isinstance(x, ast.BinOp) and isinstance(x.op, ast.Add) and isinstance(x.right, ast.Constant) and x.right.value == "_"]
-    up = any(isinstance(x, ast.Call) and isinstance(x.func, ast.Attribute) and x.func.attr == "upper" for x in ast.walk(ssk.node))
-    ctx.ob("name.nested-prefix", ssk, "nested prefix = parent + '_' + KEY.upper()", bool(joiner) and up, "nested schemas extend the prefix the same way" if joiner and up else
-           "nested schema prefixes are not parent + '_' + upper-cased key")
+    ku, pr, jn = name_shape(ssk)
+    ctx.ob("name.nested-prefix", ssk, "nested prefix = parent (as given) + '_' + KEY.upper()", ku and jn and pr is None,
+           "nested schemas extend the prefix the same way" if ku and jn and pr is None else
+           ("the inherited prefix is re-cased (%s): variables below a lower-case named prefix are no longer found" % pr if pr else
+            "nested schema prefixes are not parent + '_' + upper-cased key"))
     g = an.cfg(ssk)
     for n in g.nodes:
         if n.kind == "assign" and isinstance(n.ast, ast.Assign) and any(isinstance(t, ast.Attribute) and t.attr == "_env_prefix" for t in n.ast.targets):
